@@ -1070,12 +1070,7 @@ func (w *world) recover(im image) {
 		defer func() { w2.close() }()
 		when := "after-crash:" + im.kind
 		before := len(r.Viol)
-		ok := w2.compare(im.sn, when)
-		if ok {
-			simrt.Sleep(3*time.Second, 0) // compactions started by the open
-			ok = w2.compare(im.sn, when+":settled")
-		}
-		if !ok {
+		if ok := w2.compare(im.sn, when); !ok {
 			for i := before; i < len(r.Viol); i++ {
 				r.Viol[i].Detail = "crash at [" + im.ev + "]: " + r.Viol[i].Detail
 			}
@@ -1121,6 +1116,7 @@ func (w *world) recover(im image) {
 			}
 			sn.reqMeas[measName(m)], sn.alwMeas[measName(m)] = true, true
 		}
+		simrt.Sleep(3*time.Second, 0) // compactions started by the open and by the new series
 		w2.compare(sn, "after-crash:"+im.kind+":after-new-work")
 		for i := before; i < len(r.Viol); i++ {
 			r.Viol[i].Detail = "crash at [" + im.ev + "], then new series created: " + r.Viol[i].Detail
